@@ -85,7 +85,10 @@ def checkFrame (l : L) (fs : FrameStep) : L × Option String :=
       | .verdict (.rst c) =>
         if outRst outs sid == some c && (outHasGoAway outs).isNone then none else some s!"Msg fragment sid={sid}: abstract rst{c} full={fullReaction outs sid}"
       | .verdict .dispatch => none
-      | .ok =>
+      | .heldTooLong _ =>
+        if outHasGoAway outs == some Gen.c_EnhanceYourCalm then none
+        else some s!"Msg fragment sid={sid}: unfinished field above the bound, full model sent no GOAWAY(ENHANCE_YOUR_CALM)"
+      | .ok _ =>
         match lookup fs.after.s sid with
         | some st' =>
           if (outHasGoAway outs).isSome then none
@@ -101,11 +104,14 @@ def checkFrame (l : L) (fs : FrameStep) : L × Option String :=
   -- a trailer section without END_STREAM whose fields are all accepted is refused for its framing (RFC 7540 8.1:
   -- the C08 model's rule, compared there): the request is not complete, `validate` has no say
   let framing : Bool := reaches && (st?.map (·.headersFinished)).getD false &&
-    !Frame.hasFlag fr.flags Gen.c_FlagEndStream && (walkFrame s st? fr).1 == .ok
+    !Frame.hasFlag fr.flags Gen.c_FlagEndStream && (walkFrame s st? fr).1.isOk
+  -- a field that is not complete and already too long to fit the list limit (F68; the C13 model `Abs.Limits` decides,
+  -- compared there and by the C08 adapter): every decoded field was accepted, `validate` has no say either
+  let held : Bool := reaches && (match (walkFrame s st? fr).1 with | .heldTooLong _ => true | _ => false)
   let full : Option String :=
     match fullVerdict outs sid with
     | some v => if (outHasGoAway outs).isSome || framing then none else some v
-    | none => if reaches && outHasGoAway outs == some Gen.c_EnhanceYourCalm then some s!"goaway{Gen.c_EnhanceYourCalm}" else none
+    | none => if reaches && !held && outHasGoAway outs == some Gen.c_EnhanceYourCalm then some s!"goaway{Gen.c_EnhanceYourCalm}" else none
   let (l, err2) : L × Option String :=
     match full, e with
     | some v, some e =>
